@@ -6,11 +6,15 @@
    Vocabulary: [pr tbl 0 e] prints a source tree with the parentheses the table [tbl] requires plus
    every explicit [Par]; [strip] erases [Par]; [wf] = built from the documented operators with
    assignment targets the parser accepts; [folb tbl 0 rest] = [rest] starts with a token that can
-   follow a complete expression; [safeb ts] = no `identifier <` of the stream trips the generic-call
-   look-ahead of parsePrimary (`ident < type-argument-like tokens > (`, the still open part of finding
-   C02-generic-lookahead); computable, implied by [no_gt_lp] (no `>` directly before `(`).  Since the
-   fixes 4d0a4b7 / 9bd33cd / 34a2124 the ladder is the documented table, the look-ahead stops at
-   ; ( ) { } = + - && || and a parenthesised identifier is never a cast. *)
+   follow a complete expression.  Identifiers carry the two facts the parser looks at: [id_upper]
+   (upper-case initial) and [id_type] (names a declared type); identifier 0 is sizeof.
+   [safeb ts] = the stream trips none of the four token-shape heuristics of parsePrimary, each a known
+   finding and each clause exact: `ident < type-argument-like tokens > (` (C02-generic-lookahead),
+   `Upper <` (C02-upper-ident-lt), `sizeof ( Upper` (C02-sizeof-upper-ident), `( T '*'* )` with a
+   type-named T (C02-type-named-variable-cast); computable, implied by the syntactic [syn_safe].
+   Since the fixes 4d0a4b7 / 9bd33cd / 34a2124 the ladder is the documented table, the look-ahead
+   stops at ; ( ) { } = + - && || and a parenthesised identifier that names no type is never a
+   cast - whatever its spelling ([paren_nontype_identifier]). *)
 From Coq Require Import List Arith Bool NArith ZArith String.
 From Cb Require Import C02.Model C02.Roundtrip C02.Theorems C02.Gen_LadderTable C02.Tables.
 Import ListNotations.
@@ -66,12 +70,13 @@ Theorem parens_irrelevant_eval : forall tbl e e' rest env f f' x x' r r',
 Proof. exact parens_irrelevant_eval_l. Qed.
 Print Assumptions parens_irrelevant_eval.
 
-(* the same at full strength with a purely syntactic side condition: in neither text a `>` stands
-   directly before a `(` (parenthesised identifiers, elements, anything else are fine since 34a2124) *)
+(* the same at full strength with a purely syntactic side condition on both texts: no `>` directly
+   before `(`, no upper-case identifier directly before `<` or directly after `sizeof (`, no type-named
+   identifier directly after `(` *)
 Theorem redundant_parens_syntactic : forall tbl e e' rest,
   table_total tbl = true -> wf e = true -> wf e' = true -> strip e = strip e' ->
   folb tbl 0 rest = true ->
-  no_gt_lp (pr tbl 0 e ++ rest) = true -> no_gt_lp (pr tbl 0 e' ++ rest) = true ->
+  syn_safe (pr tbl 0 e ++ rest) = true -> syn_safe (pr tbl 0 e' ++ rest) = true ->
   exists fuel, p_assign tbl fuel (pr tbl 0 e ++ rest) = Ok (strip e, rest) /\
                p_assign tbl fuel (pr tbl 0 e' ++ rest) = Ok (strip e, rest).
 Proof. exact redundant_parens_syntactic_l. Qed.
@@ -97,9 +102,12 @@ Theorem enough_fuel_partial : forall tbl e rest,
 Proof. exact roundtrip_parse_l. Qed.
 Print Assumptions enough_fuel_partial.
 
-(* the documented groupings, on concrete streams, for any total table *)
+(* the documented groupings, on concrete streams, for any total table and any identifiers; the
+   [safeb] hypothesis only excludes an upper-case identifier directly before `<` (C02-upper-ident-lt):
+   streams without `(` and without that pair are safe ([plain_streams_are_safe]) *)
 Theorem binary_left_assoc : forall tbl, table_total tbl = true ->
   forall o1 o2 x y z, lvl tbl o1 = lvl tbl o2 ->
+  safeb [TId x; TOp o1; TId y; TOp o2; TId z] = true ->
   exists fuel, p_assign tbl fuel [TId x; TOp o1; TId y; TOp o2; TId z] =
                Ok (Bin o2 (Bin o1 (Var x) (Var y)) (Var z), []).
 Proof. exact binary_left_assoc_l. Qed.
@@ -107,34 +115,41 @@ Print Assumptions binary_left_assoc.
 
 Theorem higher_level_binds_tighter : forall tbl, table_total tbl = true ->
   forall o1 o2 x y z, lvl tbl o1 < lvl tbl o2 ->
-  (exists fuel, p_assign tbl fuel [TId x; TOp o1; TId y; TOp o2; TId z] =
+  (safeb [TId x; TOp o1; TId y; TOp o2; TId z] = true ->
+   exists fuel, p_assign tbl fuel [TId x; TOp o1; TId y; TOp o2; TId z] =
                 Ok (Bin o1 (Var x) (Bin o2 (Var y) (Var z)), [])) /\
-  (exists fuel, p_assign tbl fuel [TId x; TOp o2; TId y; TOp o1; TId z] =
+  (safeb [TId x; TOp o2; TId y; TOp o1; TId z] = true ->
+   exists fuel, p_assign tbl fuel [TId x; TOp o2; TId y; TOp o1; TId z] =
                 Ok (Bin o1 (Bin o2 (Var x) (Var y)) (Var z), [])).
 Proof. exact higher_level_binds_tighter_l. Qed.
 Print Assumptions higher_level_binds_tighter.
 
 Theorem ternary_right_assoc : forall tbl, table_total tbl = true -> forall a b c d e,
+  safeb [TId a; TQ; TId b; TColon; TId c; TQ; TId d; TColon; TId e] = true ->
   exists fuel, p_assign tbl fuel [TId a; TQ; TId b; TColon; TId c; TQ; TId d; TColon; TId e] =
                Ok (Tern (Var a) (Var b) (Tern (Var c) (Var d) (Var e)), []).
 Proof. exact ternary_right_assoc_l. Qed.
 Print Assumptions ternary_right_assoc.
 
 Theorem assignment_right_assoc : forall tbl, table_total tbl = true -> forall o1 o2 x y z,
+  safeb [TId x; TAsg o1; TId y; TAsg o2; TId z] = true ->
   exists fuel, p_assign tbl fuel [TId x; TAsg o1; TId y; TAsg o2; TId z] =
                Ok (Asg o1 (Var x) (Asg o2 (Var y) (Var z)), []).
 Proof. exact assignment_right_assoc_l. Qed.
 Print Assumptions assignment_right_assoc.
 
 Theorem binary_above_ternary_above_assignment : forall tbl, table_total tbl = true -> forall o x a b c d,
+  safeb [TId x; TAsg None; TId a; TOp o; TId b; TQ; TId c; TColon; TId d] = true ->
   exists fuel, p_assign tbl fuel [TId x; TAsg None; TId a; TOp o; TId b; TQ; TId c; TColon; TId d] =
                Ok (Asg None (Var x) (Tern (Bin o (Var a) (Var b)) (Var c) (Var d)), []).
 Proof. exact binary_ternary_assignment_l. Qed.
 Print Assumptions binary_above_ternary_above_assignment.
 
 Theorem unary_binds_tighter_than_binary : forall tbl, table_total tbl = true -> forall u o x y,
-  (exists fuel, p_assign tbl fuel [utok u; TId x; TOp o; TId y] = Ok (Bin o (Un u (Var x)) (Var y), [])) /\
-  (exists fuel, p_assign tbl fuel [TId x; TOp o; utok u; TId y] = Ok (Bin o (Var x) (Un u (Var y)), [])).
+  (safeb [utok u; TId x; TOp o; TId y] = true ->
+   exists fuel, p_assign tbl fuel [utok u; TId x; TOp o; TId y] = Ok (Bin o (Un u (Var x)) (Var y), [])) /\
+  (safeb [TId x; TOp o; utok u; TId y] = true ->
+   exists fuel, p_assign tbl fuel [TId x; TOp o; utok u; TId y] = Ok (Bin o (Var x) (Un u (Var y)), [])).
 Proof. exact unary_binds_tighter_than_binary_l. Qed.
 Print Assumptions unary_binds_tighter_than_binary.
 
@@ -145,11 +160,24 @@ Theorem postfix_binds_tighter_than_unary : forall tbl, table_total tbl = true ->
 Proof. exact postfix_binds_tighter_than_unary_l. Qed.
 Print Assumptions postfix_binds_tighter_than_unary.
 
-(* no `>` directly before `(` implies the generic look-ahead never fires and the stream is safe *)
-Theorem no_gt_before_lparen_is_safe : forall ts, no_gt_lp ts = true ->
-  safeb ts = true /\ forall d, generic_scan d ts = false.
-Proof. intros ts H. split; [exact (no_gt_lp_safe_l ts H)|exact (no_gt_lp_generic_safe_l ts H)]. Qed.
+(* no `>` directly before `(` implies that the generic look-ahead never fires; with the other three
+   syntactic conditions the stream is safe *)
+Theorem no_gt_before_lparen_is_safe : forall ts,
+  (no_gt_lp ts = true -> forall d, generic_scan d ts = false) /\
+  (syn_safe ts = true -> safeb ts = true).
+Proof. intros ts. split; [exact (no_gt_lp_generic_safe_l ts)|exact (syn_safe_l ts)]. Qed.
 Print Assumptions no_gt_before_lparen_is_safe.
+
+Theorem plain_streams_are_safe : forall ts, nolp ts = true -> no_upper_lt ts = true -> safeb ts = true.
+Proof. exact nolp_safe. Qed.
+Print Assumptions plain_streams_are_safe.
+
+(* THE SPELLING OF A NAME DOES NOT MAKE IT A TYPE: `( x )` is the variable x for every identifier that
+   names no declared type - upper-case initial or not - and for EVERY continuation of the stream *)
+Theorem paren_nontype_identifier : forall tbl x r, table_total tbl = true -> id_type x = false ->
+  exists fuel, p_primary tbl fuel (TLP :: TId x :: TRP :: r) = Ok (Var x, r).
+Proof. exact paren_nontype_identifier_l. Qed.
+Print Assumptions paren_nontype_identifier.
 
 (* ---- the table of the code.  ladder_table, ladder_shape, ... are GENERATED from expression_parser.cpp /
    recursive_parser.cpp / primary_expression_parser.cpp on every run; the next obligations are closed by
@@ -167,6 +195,12 @@ Print Assumptions ladder_is_spec.
    assignment is parseTernary [op parseAssignment]; prefix operators recurse into parseUnary, ++/--
    and the fall-through use parsePostfix; the generic look-ahead gives up at ; ( ) { } = + - && || and after scan_bound = 256 tokens;
    `( identifier` is tried as a type only for a type name *)
+Theorem primary_lookaheads_are_modelled :
+  primary_ok ladder_cast_guard_maps ladder_cast_guard_assigns ladder_primary_isupper ladder_cast_operand
+             ladder_cast_starts ladder_postfix_tests = true.
+Proof. exact (eq_refl true). Qed.
+Print Assumptions primary_lookaheads_are_modelled.
+
 Theorem ladder_structure_is_modelled :
   structure_ok ladder_shape ladder_ternary ladder_entry ladder_assign ladder_unary_prefix
                ladder_unary_calls ladder_generic_stops ladder_generic_bound ladder_cast_guard ladder_table = true.
@@ -184,9 +218,11 @@ Print Assumptions ladder_conforms_to_spec.
 (* former finding C02-eq-rel-same-level (fixed by 4d0a4b7): == != bind looser than < <= > >= on either
    side; the former witness 3 == 3 > 0 is 3 == (3 > 0) = 0 (the ladder before the fix gave (3 == 3) > 0) *)
 Theorem spec_grouping : forall oe orl x y z, is_eq oe = true -> is_rel orl = true ->
-  (exists fuel, p_assign ladder_table fuel [TId x; TOp oe; TId y; TOp orl; TId z] =
+  (safeb [TId x; TOp oe; TId y; TOp orl; TId z] = true ->
+   exists fuel, p_assign ladder_table fuel [TId x; TOp oe; TId y; TOp orl; TId z] =
                 Ok (Bin oe (Var x) (Bin orl (Var y) (Var z)), [])) /\
-  (exists fuel, p_assign ladder_table fuel [TId x; TOp orl; TId y; TOp oe; TId z] =
+  (safeb [TId x; TOp orl; TId y; TOp oe; TId z] = true ->
+   exists fuel, p_assign ladder_table fuel [TId x; TOp orl; TId y; TOp oe; TId z] =
                 Ok (Bin oe (Bin orl (Var x) (Var y)) (Var z), [])).
 Proof. exact spec_grouping_l. Qed.
 Print Assumptions spec_grouping.
@@ -201,21 +237,35 @@ Proof. exact spec_witness_l. Qed.
 Print Assumptions spec_grouping_witness.
 
 (* former finding C02-paren-ident-cast (fixed by 34a2124): the former witnesses (a) - 1, (a[1]) - 1 and
-   ((a) * 2) parse as the expressions they are (the general law is [redundant_parens]) *)
+   ((a) * 2) parse as the expressions they are, and so do (N) - 1 and 100 - (N) - 1 with an upper-case
+   name (the general laws are [redundant_parens] and [paren_nontype_identifier]) *)
 Theorem paren_identifier_is_not_a_cast :
-  parse pinned_table (pr pinned_table 0 (Bin Sub (Par (Var 0)) (Num 1))) = Ok (Bin Sub (Var 0) (Num 1), []) /\
-  pr pinned_table 0 (Bin Sub (Par (Var 0)) (Num 1)) = [TLP; TId 0; TRP; TOp Sub; TNum 1] /\
-  parse pinned_table [TLP; TId 0; TLB; TNum 1; TRB; TRP; TOp Sub; TNum 1] =
-    Ok (Bin Sub (Idx (Var 0) (Num 1)) (Num 1), []) /\
-  parse pinned_table [TLP; TLP; TId 0; TRP; TOp Mul; TNum 2; TRP] = Ok (Bin Mul (Var 0) (Num 2), []).
+  parse pinned_table (pr pinned_table 0 (Bin Sub (Par (Var ia)) (Num 1))) = Ok (Bin Sub (Var ia) (Num 1), []) /\
+  pr pinned_table 0 (Bin Sub (Par (Var ia)) (Num 1)) = [TLP; TId ia; TRP; TOp Sub; TNum 1] /\
+  parse pinned_table [TLP; TId ia; TLB; TNum 1; TRB; TRP; TOp Sub; TNum 1] =
+    Ok (Bin Sub (Idx (Var ia) (Num 1)) (Num 1), []) /\
+  parse pinned_table [TLP; TLP; TId ia; TRP; TOp Mul; TNum 2; TRP] = Ok (Bin Mul (Var ia) (Num 2), []) /\
+  parse pinned_table [TLP; TId iN; TRP; TOp Sub; TNum 1] = Ok (Bin Sub (Var iN) (Num 1), []) /\
+  parse pinned_table [TNum 100; TOp Sub; TLP; TId iN; TRP; TOp Sub; TNum 1] =
+    Ok (Bin Sub (Bin Sub (Num 100) (Var iN)) (Num 1), []).
 Proof. exact paren_identifier_l. Qed.
 Print Assumptions paren_identifier_is_not_a_cast.
 
+(* casts to keyword types are prefix-level: (int) a * b = ((int) a) * b, (int) - a = (int) (- a),
+   - (long* ) a[1] = - ((long* ) (a[1])) (the general law is [roundtrip_general]: Cast is a source construct) *)
+Theorem cast_binds_like_unary :
+  parse pinned_table [TLP; TKw 0; TRP; TId ia; TOp Mul; TId ib] = Ok (Bin Mul (Cast [TKw 0] (Var ia)) (Var ib), []) /\
+  parse pinned_table [TLP; TKw 0; TRP; TOp Sub; TId ia] = Ok (Cast [TKw 0] (Un Neg (Var ia)), []) /\
+  parse pinned_table [TOp Sub; TLP; TKw 1; TOp Mul; TRP; TId ia; TLB; TNum 1; TRB] =
+    Ok (Un Neg (Cast [TKw 1; TOp Mul] (Idx (Var ia) (Num 1))), []).
+Proof. exact cast_binds_like_unary_l. Qed.
+Print Assumptions cast_binds_like_unary.
+
 (* C02-generic-lookahead after 9bd33cd: the look-ahead gives up at + and at a statement boundary ... *)
 Theorem generic_lookahead_is_bounded :
-  parse pinned_table [TId 0; TOp LtO; TId 1; TOp Add; TNum 1; TOp GtO; TLP; TId 2; TRP] =
-    Ok (Bin GtO (Bin LtO (Var 0) (Bin Add (Var 1) (Num 1))) (Var 2), []) /\
-  generic_scan 1 [TId 1; TRP; TSemi; TOther; TLP; TId 1; TOp GtO; TLP; TId 0; TRP] = false.
+  parse pinned_table [TId ia; TOp LtO; TId ib; TOp Add; TNum 1; TOp GtO; TLP; TId ic; TRP] =
+    Ok (Bin GtO (Bin LtO (Var ia) (Bin Add (Var ib) (Num 1))) (Var ic), []) /\
+  generic_scan 1 [TId ib; TRP; TSemi; TOther; TLP; TId ib; TOp GtO; TLP; TId ia; TRP] = false.
 Proof. exact generic_lookahead_bounded_l. Qed.
 Print Assumptions generic_lookahead_is_bounded.
 
@@ -224,11 +274,51 @@ Print Assumptions generic_lookahead_is_bounded.
    a<b>(c & d) - nothing at parse time tells a generic function name from a variable *)
 Theorem roundtrip_min_refuted_generic :
   exists e, wf e = true /\ nopar e = true /\
-    pr pinned_table 0 e = [TId 0; TOp LtO; TId 1; TOp GtO; TLP; TId 2; TOp BAnd; TId 3; TRP] /\
-    parse pinned_table (pr pinned_table 0 e) = Ok (Generic 1 (Call 0 [Bin BAnd (Var 2) (Var 3)]), []) /\
+    pr pinned_table 0 e = [TId ia; TOp LtO; TId ib; TOp GtO; TLP; TId ic; TOp BAnd; TId id_; TRP] /\
+    parse pinned_table (pr pinned_table 0 e) = Ok (Generic 1 (Call ia [Bin BAnd (Var ic) (Var id_)]), []) /\
     safeb (pr pinned_table 0 e) = false.
 Proof. exact roundtrip_min_refuted_generic_l. Qed.
 Print Assumptions roundtrip_min_refuted_generic.
+
+(* REFUTED without [safeb] (known finding C02-upper-ident-lt): an upper-case variable directly before `<`
+   is taken for a generic type name - N < 5 is a parse error while (N) < 5 is the comparison, and
+   N < M > - 1 silently parses as N - 1 *)
+Theorem roundtrip_min_refuted_upper_lt :
+  wf (Bin LtO (Var iN) (Num 5)) = true /\
+  parse pinned_table (pr pinned_table 0 (Bin LtO (Var iN) (Num 5)) ++ [TRP; TSemi]) = Err /\
+  parse pinned_table (pr pinned_table 0 (Bin LtO (Par (Var iN)) (Num 5)) ++ [TRP; TSemi]) =
+    Ok (Bin LtO (Var iN) (Num 5), [TRP; TSemi]) /\
+  pr pinned_table 0 (Bin GtO (Bin LtO (Var iN) (Var iM)) (Un Neg (Num 1))) =
+    [TId iN; TOp LtO; TId iM; TOp GtO; TOp Sub; TNum 1] /\
+  parse pinned_table [TId iN; TOp LtO; TId iM; TOp GtO; TOp Sub; TNum 1] = Ok (Bin Sub (Var iN) (Num 1), []) /\
+  safeb [TId iN; TOp LtO; TNum 5] = false.
+Proof. exact roundtrip_min_refuted_upper_lt_l. Qed.
+Print Assumptions roundtrip_min_refuted_upper_lt.
+
+(* REFUTED without [safeb] (known finding C02-sizeof-upper-ident): sizeof(N) takes an upper-case variable
+   for a type name (sizeof(N + 1) is a parse error), sizeof((N)) does not *)
+Theorem roundtrip_refuted_sizeof_upper :
+  wf (Call 0 [Var iN]) = true /\
+  parse pinned_table (pr pinned_table 0 (Call 0 [Var iN])) = Ok (SizeofT, []) /\
+  parse pinned_table (pr pinned_table 0 (Call 0 [Par (Var iN)])) = Ok (Call 0 [Var iN], []) /\
+  parse pinned_table (pr pinned_table 0 (Call 0 [Bin Add (Var iN) (Num 1)])) = Err /\
+  safeb (pr pinned_table 0 (Call 0 [Var iN])) = false.
+Proof. exact roundtrip_refuted_sizeof_upper_l. Qed.
+Print Assumptions roundtrip_refuted_sizeof_upper.
+
+(* REFUTED without [safeb] (known finding C02-type-named-variable-cast): a variable that shares its name with
+   a declared type, alone in parentheses before a token that can start a unary expression, is a cast;
+   as a call argument, or with more than the name inside the parentheses, it is not *)
+Theorem roundtrip_refuted_type_named :
+  wf (Bin Sub (Par (Var iT)) (Num 1)) = true /\
+  parse pinned_table (pr pinned_table 0 (Bin Sub (Par (Var iT)) (Num 1))) = Ok (Cast [TId iT] (Un Neg (Num 1)), []) /\
+  parse pinned_table (pr pinned_table 0 (Bin Sub (Var iT) (Num 1))) = Ok (Bin Sub (Var iT) (Num 1), []) /\
+  parse pinned_table (pr pinned_table 0 (Bin Sub (Par (Var it_)) (Num 1))) = Ok (Cast [TId it_] (Un Neg (Num 1)), []) /\
+  safeb (pr pinned_table 0 (Bin Sub (Par (Var iT)) (Num 1))) = false /\
+  safeb (pr pinned_table 0 (Bin Sub (Call ia [Var iT]) (Num 1))) = true /\
+  safeb (pr pinned_table 0 (Bin Sub (Par (Bin Add (Var iT) (Num 0))) (Num 1))) = true.
+Proof. exact roundtrip_refuted_type_named_l. Qed.
+Print Assumptions roundtrip_refuted_type_named.
 
 (* the hypotheses are satisfiable and [enough_fuel] suffices on a stream using every construct *)
 Example sample_roundtrip :
